@@ -71,6 +71,11 @@ func genC14Obj(t *rapid.T, kind string, n int) *world.Obj {
 	case world.KPod:
 		o.PodIP = "10.9.9.9"
 	}
+	if kind != world.KEndpoints && kind != world.KConfigMap && kind != world.KIngressClass && chanceT(t, "svcnamelabel", 15) {
+		// the label that names the Service of an EndpointSlice, on an object of another kind: it is just a label there,
+		// the object is linked and described under its own name
+		o.Labels = map[string]string{"kubernetes.io/service-name": "web"}
+	}
 	return o
 }
 
